@@ -194,7 +194,10 @@ def run(rep):
         small = len(arc) <= (6000 if quick else 8000)
         sizes = [s for s in readcore.PART_SIZES if small or s >= 7]
         if quick:
-            sizes = r.sample(sizes, min(3, len(sizes)))
+            # always one small odd size and one just above a block multiple: text-line parsers (tar's sparse map,
+            # mtree, warc, uuencode) take different paths when a block ends inside a line
+            keep = [x for x in (3, 513) if x in sizes]
+            sizes = keep + r.sample([x for x in sizes if x not in keep], min(2, max(0, len(sizes) - len(keep))))
         # class A: seek and skip offered
         variants = [("A", dict(source=(1,)))]
         variants += [("A", dict(source=(0,), rplan=[sz] * (len(arc) // sz + 2), has_skip=1, has_seek=1)) for sz in sizes]
